@@ -98,12 +98,19 @@ def absR (x : R) : R := if x < 0 then -x else x
 
 def sumL (l : List R) : R := l.foldl (· + ·) 0
 
-/-- all valid (`some`) entries, row-major -/
-def validEntries (C : Mat (Option R)) : List R := C.flatMap fun row => row.filterMap id
+/-- `|c|` of a valid cell, nothing for an invalid one -/
+def cellAbs (x : Option R) : R :=
+  match x with
+  | some v => absR v
+  | none => 0
 
-/-- `2 * np.abs(valid).sum() + 1` -/
+/-- all cell indices, row-major -/
+def allIdx {α : Type} (C : Mat α) : List (Nat × Nat) :=
+  (List.range (nRows C)).flatMap fun i => (List.range (nCols C)).map fun j => (i, j)
+
+/-- `2 * np.abs(cost[~is_invalid]).sum() + 1` (row-major sum; an invalid cell contributes nothing) -/
 def sentinel (C : Mat (Option R)) : R :=
-  let s := sumL ((validEntries C).map absR)
+  let s := sumL ((allIdx C).map fun ij => cellAbs (entry C ij.1 ij.2))
   (s + s) + 1
 
 def fillInvalid (C : Mat (Option R)) : Mat (Option R) :=
